@@ -2,6 +2,7 @@ import VtProofs.Coverage
 import VtModel.Pipeline
 import VtProps.C06
 import VtProofs.PipeCovers
+import VtProofs.VersatilesRead
 /-!
 # C03 — the advertised coverage pyramid contains every tile a source can return
 
@@ -203,6 +204,36 @@ theorem mbtiles_level_exact (tiles : List ((Nat × Nat × Nat) × Fmt.Bytes)) (z
     · simp only [levelBox]; omega
   · intro hno
     exact absurd ⟨t0.1, List.mem_map.2 ⟨t0, ht0, rfl⟩, hz0⟩ hno
+
+/-! ## (c) versatiles: block boxes -/
+
+/-- the pyramid assembled by `BlockIndex::get_bbox_pyramid` (`include_bbox` of every block's global
+    box, in any order) contains every coordinate of every block box -/
+theorem versatiles_blocks_covered (blocks : List BBox) (hb : ∀ b ∈ blocks, b.WF) :
+    ∃ r, coverOfBlocks blocks = .ok r ∧ r.WF ∧
+      ∀ b ∈ blocks, ∀ c : Coord, c.2.2 = b.level → b.contains2 c.1 c.2.1 = true → Pyramid.has r c = true := by
+  obtain ⟨r, hr, hw⟩ := includeFold_ok blocks hb Pyramid.newEmpty wf_newEmpty
+  refine ⟨r, hr, hw, ?_⟩
+  intro b hbm c hz hin
+  exact VtProofs.PipeCovers.includeFold_has blocks hb Pyramid.newEmpty r wf_newEmpty hr c (Or.inr ⟨b, hbm, hz, hin⟩)
+
+/-- every tile the versatiles reader returns (`get_tile_data`, reader.rs:188-230, C16's model) lies in
+    the global box of a block of the index at the tile's level – together with
+    `versatiles_blocks_covered`: inside the advertised pyramid -/
+theorem versatiles_tile_in_block (r : Versatiles.Reader) (x y z : Nat) (blob : Fmt.Bytes)
+    (h : Versatiles.getTile r x y z = .ok (some blob)) :
+    ∃ b ∈ r.blocks, b.z = z ∧ b.global.contains2 x y = true := by
+  unfold Versatiles.getTile at h
+  split at h
+  · cases h
+  · split at h
+    · cases h
+    · rename_i b hb
+      split at h
+      · cases h
+      · rename_i hc
+        have hgb := VtProofs.VersatilesRead.getBlock_some hb
+        exact ⟨b, hgb.1, hgb.2.2.2, by simpa using hc⟩
 
 /-! ## (d) pipelines: `lookup c = some _ → c ∈ cover` is preserved by every combinator -/
 
